@@ -287,6 +287,7 @@ def k2_run_fun(res, tier):
         e.model(r'^(vm::)?Vm::resolve_call$', m_resolve)
 
         def m_execute(e_, a, c):
+            e_.path_state['mode'] = a[1]
             kv = z3.BitVec('executed', 64)
             names = [v[0] for v in er.variants]
             allowed = [i for i, n in enumerate(names) if n != 'CompileError']
@@ -322,6 +323,13 @@ def k2_run_fun(res, tier):
                 outcome = pe.kind
             s = e.path_state.get('signal')
             e.check(outcome != 'internal_error', f'{fname}: no signal a callee can answer with ends in an internal error', {'signal': s})
+            mode = e.path_state.get('mode')
+            if mode is not None:
+                # the fact C04.K2 builds on: the boundary handed to the nested run is the frame count of the calling code
+                # (resolve_call, summarised here, pushes the callee frame on top of it)
+                okm = isinstance(mode, EnumV) and mode.variant_name() == 'CallingNativeCode'
+                depth = e.payload0(mode, 'CallingNativeCode') if okm else None
+                e.check(okm and e.is_valid(depth == st.nframes), f'{fname}: the nested run is bounded by the number of frames of the code that called into native code')
             if s == 'Exit' and outcome == 'ok':
                 good = isinstance(r, EnumV) and r.tag == 1 and e.payload0(r, 'Err').variant_name() == 'Exit'
                 if good:
